@@ -216,6 +216,7 @@ def run_property(prop, tier='quick', update_baseline=False, only=None, verbose=F
         return None
 
     confirmed = {}
+    attempts = {}
     for ob in refuted:
         k = is_known(ob)
         info = {'property': prop, 'obligation': ob.name, 'kind': ob.kind, 'line': ob.line, 'note': ob.note,
@@ -224,11 +225,19 @@ def run_property(prop, tier='quick', update_baseline=False, only=None, verbose=F
         # opt-in (spec.confirm_limit = n): once n refuted obligations of a function have replayed a failing input on
         # the real code, the (expensive) counter-model search is not repeated for its remaining refuted obligations
         lim = getattr(ob.func.spec, 'confirm_limit', None)
+        # opt-in (spec.confirm_attempts = n): at most n counter-model searches per function, whatever their outcome
+        # (functions with hundreds of paths whose witnesses the solver rarely finds: every further refuted obligation
+        # is still reported as a VIOLATION, only without a replayed failing input)
+        att = getattr(ob.func.spec, 'confirm_attempts', None)
         try:
             if lim is not None and confirmed.get(ob.func.spec.name, 0) >= lim:
                 rr = {'status': 'inconclusive', 'diffs': ['confirm_limit reached: failing inputs for this function '
                                                           'were already replayed for other obligations']}
+            elif att is not None and attempts.get(ob.func.spec.name, 0) >= att:
+                rr = {'status': 'inconclusive', 'diffs': ['confirm_attempts reached: counter-model search budget '
+                                                          'of this function is used up']}
             else:
+                attempts[ob.func.spec.name] = attempts.get(ob.func.spec.name, 0) + 1
                 rr = confirm(ob)
         except Exception as e:
             rr = {'status': 'inconclusive', 'diffs': ['replay crashed: ' + repr(e)]}
